@@ -13,6 +13,11 @@ import (
 
 func main() {
 	quiet()
+	// A private scratch directory: other checks run concurrently and tidy up the
+	// shared one (a removed shard directory makes the workers fail).
+	if os.Getenv("VERIF_SCRATCH") == "" {
+		os.Setenv("VERIF_SCRATCH", "/var/tmp/verif-work/server-harness")
+	}
 	if os.Getenv("VERIF_SRVHOST") != "" {
 		hostMain()
 		return
